@@ -606,8 +606,12 @@ impl WeakState {
         self.inner.upgrade().unwrap().save_dot_to_string()
     }
 
+    /// A no-op once the state is gone (there is nothing left to unsubscribe from): guards that
+    /// unsubscribe when dropped may outlive the state, or be dropped by its teardown.
     pub fn unsubscribe(&self, token: SubscriptionToken) {
-        self.inner.upgrade().unwrap().unsubscribe(token)
+        if let Some(state) = self.inner.upgrade() {
+            state.unsubscribe(token)
+        }
     }
 }
 
